@@ -237,17 +237,22 @@ func runC20(c *run.Ctx) {
 	}
 	all := fragAll()
 	allSpecs := append(append([]built{}, named...), subs...)
-	k1 := 2
-	if !c.Quick() {
-		k1 = 3
-	}
-	Seqs(c, all, 0, k1, func(in []byte, _ []int) { eval(allSpecs, in) })
+	Seqs(c, all, 0, 2, func(in []byte, _ []int) { eval(allSpecs, in) })
 	if c.Quick() {
 		Seqs(c, all, 3, 3, func(in []byte, _ []int) { eval(named, in) })
 		Seqs(c, fragCore, 4, 4, func(in []byte, _ []int) { eval(named[:min(6, len(named))], in) })
 	} else {
+		// thorough: k=3 on named + every <=2-subset policy in class, k=4 over the core on all named, k=5 over the core on four
+		small := append([]built{}, named...)
+		for _, s := range subsetSpecs(2) {
+			b := build(s)
+			if inC20Class(b.V) {
+				small = append(small, b)
+			}
+		}
+		Seqs(c, all, 3, 3, func(in []byte, _ []int) { eval(small, in) })
 		Seqs(c, fragCore, 4, 4, func(in []byte, _ []int) { eval(named, in) })
-		Seqs(c, all, 4, 4, func(in []byte, _ []int) { eval(named[:min(4, len(named))], in) })
+		Seqs(c, fragCore, 5, 5, func(in []byte, _ []int) { eval(named[:min(4, len(named))], in) })
 	}
 	// URL layer
 	urlSpecs := pick(named, "ugc", "links", "link-relfalse-targetfalse", "link-reltrue-targettrue", "cmd-ugc")
